@@ -182,7 +182,9 @@ func (fc *FnCtx) loopHead(li *loopInfo, st *State) {
 	if spec != nil {
 		env := fc.envAtLoop(li, st, nil)
 		for i, c := range spec.Invariants {
-			fc.oblig("inv-init", fmt.Sprintf("loop%d/%d %s", li.index, i, c.Text), fc.evalBool(c.Expr, env), b.Instrs[0].Pos())
+			if t, ok := fc.tryEvalBool(c, env, fmt.Sprintf("loop%d/%d %s", li.index, i, c.Text)); ok {
+				fc.oblig("inv-init", fmt.Sprintf("loop%d/%d %s", li.index, i, c.Text), t, b.Instrs[0].Pos())
+			}
 		}
 	}
 	// 2. havoc loop-carried values and written regions
@@ -212,7 +214,9 @@ func (fc *FnCtx) loopHead(li *loopInfo, st *State) {
 	if spec != nil {
 		env := fc.envAtLoop(li, st, nil)
 		for _, c := range spec.Invariants {
-			fc.assume(fc.evalBool(c.Expr, env))
+			if t, ok := fc.tryEvalBool(c, env, ""); ok {
+				fc.assume(t)
+			}
 		}
 		if spec.Decreases != nil {
 			m := fc.evalExpr(spec.Decreases.Expr, env)
@@ -222,6 +226,31 @@ func (fc *FnCtx) loopHead(li *loopInfo, st *State) {
 			fc.useLemma(u, env)
 		}
 	}
+}
+
+// tryEvalBool evaluates a loop-invariant clause; a clause that no longer binds to the code
+// (it names a variable the loop does not have any more) is reported as a failed `bind`
+// obligation of its own, once, and otherwise skipped, so that the rest of the function is
+// still checked (and a real defect behind it still gets its own obligation and replay).
+func (fc *FnCtx) tryEvalBool(c Clause, env *Env, report string) (t Term, ok bool) {
+	defer func() {
+		if r := recover(); r != nil {
+			se, is := r.(specErr)
+			if !is {
+				panic(r)
+			}
+			ok = false
+			if report != "" {
+				name := fmt.Sprintf("%s/bind/%s#0", fc.eng.shortFn(fc.fn), report)
+				if len(name) > 160 {
+					name = name[:160]
+				}
+				fc.obls = append(fc.obls, &Obligation{Name: name, Kind: "bind", Fn: fc.eng.shortFn(fc.fn), Result: "sat", Solver: "binder",
+					Model: "the invariant does not bind to the code any more: " + string(se)})
+			}
+		}
+	}()
+	return fc.evalBool(c.Expr, env), true
 }
 
 func (fc *FnCtx) backEdge(li *loopInfo, from *ssa.BasicBlock, k int, st *State) {
@@ -269,7 +298,9 @@ func (fc *FnCtx) backEdge(li *loopInfo, from *ssa.BasicBlock, k int, st *State) 
 	}
 	env := fc.envAtLoop(li, st, over)
 	for i, c := range spec.Invariants {
-		fc.oblig("inv-preserve", fmt.Sprintf("loop%d/%d %s", li.index, i, c.Text), fc.evalBool(c.Expr, env), pos)
+		if t, ok := fc.tryEvalBool(c, env, ""); ok {
+			fc.oblig("inv-preserve", fmt.Sprintf("loop%d/%d %s", li.index, i, c.Text), t, pos)
+		}
 	}
 	if spec.Decreases != nil && li.measure != "" {
 		m := fc.evalExpr(spec.Decreases.Expr, env)
